@@ -276,6 +276,7 @@ func (lifeComp) Gen(r *Rand, tier string, emit func(string)) {
 	emit("stdio 1 blockS garbage")
 	emit("ws 1 blockC sessclose")
 	emit("tcp 1 blockC clishutdown")
+	emit("tcp 1 blockS rstall")
 	if tier == "thorough" {
 		for _, c := range []string{"tcptls", "wss", "starttls", "stdiotls"} {
 			emit(c + " 1 blockS garbage")
